@@ -194,22 +194,31 @@ static void run_C19(const vcase *c, vres *r)
 
 static void s19p(const int *d, vcase *c) { pick_matrix(c, d[0]); c->type = d[1]; c->tune[6] = d[2] + 1; set_tune(c, (int[]){ 3, 9, 0 }[d[3]]); c->tune[6] = d[2] + 1; c->fest = d[2] + 1; c->aux = 0; c->lwork = d[4]; c->k = d[2] + d[0]; }
 static void s19d(const int *d, vcase *c) { pick_matrix(c, d[0]); c->type = d[1]; set_tune(c, (int[]){ 3, 0 }[d[2]]); c->tune[6] = d[3] ? 1 : 30; c->fest = c->tune[6]; c->aux = 1; c->lwork = d[4]; c->k = d[5]; c->stor = d[6]; c->colperm = 3; c->u = 1.0; c->permid = -1; }
+static void s19l(const int *d, vcase *c)   /* many matrices, short words: order, factor (library / workspace), solve, destroy */
+{
+    c->n = c->m = 6; c->pat = dev1_pattern(6, base_pattern(6, d[0]), d[1]); c->vals = d[1] % 2 ? 1 : 2; c->type = d[2]; set_tune(c, (int[]){ 3, 9 }[d[4]]); c->tune[6] = d[3] + 1; c->fest = d[3] + 1; c->aux = 0; c->k = d[1];
+    int ord = d[5], gmode = d[6] ? GM_WS : GM_LIB, op1 = OP_SOLVE_N, op2 = d[6] ? OP_RFS : OP_SOLVE_T, refac = d[1] % 3, op3 = OP_SOLVE_N;
+    c->lwork = ((((long)ord * GM_N + gmode) * OP_N + op1) * OP_N + op2) * 3 * OP_N + (long)refac * OP_N + op3;
+}
 #define NPIPE (4 * GM_N * OP_N * OP_N * 3 * OP_N)
 #define NDRV (DK_N * DK_N * DK_N)
 static const family F19Q[] = {
+    { "short pipeline words on DEV_1(BASE(6)) x type4 x fill estimate{1,2} x tuning2 x ordering4 x {library allocation, workspace}", 7, { 9, 37, 4, 2, 2, 4, 2 }, s19l },
     { "pipeline words: 6 matrices x {d,z..} type4 x fill estimate{1,2,3} x tuning{(2,1,2..),relaxed} x all words (ordering4 x factor-mode8 x op6 x op6 x refactor3 x op6)", 5, { 6, 4, 3, 2, NPIPE }, s19p },
     { "driver words: 6 matrices x type4 x tuning2 x fill{30,1} x all 15^3 three-call words x option-mix4 x storage2", 7, { 6, 4, 2, 2, NDRV, 4, 2 }, s19d },
 };
 static const family F19T[] = {
+    { "short pipeline words on DEV_1(BASE(6)) x type4 x fill estimate{1..4} x tuning2 x ordering4 x {library allocation, workspace}", 7, { 9, 37, 4, 4, 2, 4, 2 }, s19l },
     { "pipeline words: 6 matrices x type4 x fill estimate{1..8} x tuning3 x all words", 5, { 6, 4, 8, 3, NPIPE }, s19p },
     { "driver words: 6 matrices x type4 x tuning2 x fill{30,1} x all three-call words x option-mix8 x storage2", 7, { 6, 4, 2, 2, NDRV, 8, 2 }, s19d },
 };
 /* sanitizer builds: reduced */
 static const family F19S[] = {
+    { "short pipeline words on DEV_1(BASE(6)) x {d} x fill estimate{1,2} x tuning2 x ordering4 x {library allocation, workspace}", 7, { 9, 37, 1, 2, 2, 4, 2 }, s19l },
     { "pipeline words: 6 matrices x {d} x fill estimate{1,2} x tuning1 x all words", 5, { 6, 1, 2, 1, NPIPE }, s19p },
     { "driver words: 6 matrices x {d} x tuning1 x fill{30,1} x all words x option-mix2 x storage2", 7, { 6, 1, 1, 2, NDRV, 2, 2 }, s19d },
 };
-static const family *pick(int tier, int *nf) { if (!strncmp(wk_variant, "asan", 4)) { *nf = 2; return F19S; } if (tier) { *nf = 2; return F19T; } *nf = 2; return F19Q; }
+static const family *pick(int tier, int *nf) { if (!strncmp(wk_variant, "asan", 4)) { *nf = 3; return F19S; } if (tier) { *nf = 3; return F19T; } *nf = 3; return F19Q; }
 static long sz_19(int tier) { int nf; const family *f = pick(tier, &nf); return fam_total(f, nf); }
 static void dec_19(int tier, long idx, vcase *c) { int nf; const family *f = pick(tier, &nf); fam_decode(f, nf, idx, c); if (!strncmp(wk_variant, "asan", 4)) c->type = TD; }
 static void desc_19(int tier, char *b, size_t cap) { int nf; const family *f = pick(tier, &nf); fam_describe(f, nf, b, cap); }
